@@ -234,6 +234,47 @@ def h_write(ctx, vi, kind, fault_name, nbytes, force_unlock, ignore_feedback):
     return "stored"
 
 
+def h_write_lockbyte(ctx, bname, fault_name):
+    """The lock / latch byte is a declared, writable value of its bank too: written on its own (default
+    flags) it is stored exactly, and a unit that answers NO, echoes another byte or garbles the answer makes
+    the write fail loudly - no default may turn the feedback off."""
+    mod, number, declared_last, has_lock, has_latch = MM.BANK_HEADERS[bname]
+    bobj = getattr(importlib.import_module(mod), bname)
+    cls = bobj.LockByte
+    v = ctx.fresh("v", 0, 255)
+    image = {l: (l * 13 + 5) & 0xFF for l in range(256)}
+    image[0] = 254
+    image[2] = ctx.fresh("lockbyte", 0, 255)
+    bank = M.MemoryBank(image, 254, writable=lambda loc: "rw", has_lock=True)
+    u = M.Unit("gear", short=7, banks={number: bank})
+    hit = []
+
+    def fault(k, cmd, raw):
+        if cmd.response is None or fault_name == "none":
+            return raw
+        fv = cmd.frame.as_integer
+        if not bool(E.eq(fv >> 8, 0xC7)):
+            return raw
+        hit.append(k)
+        if fault_name == "no":
+            return None
+        if fault_name == "framing":
+            return F.BackwardFrameError(raw.as_integer if raw is not None else 0)
+        return F.BackwardFrame((raw.as_integer ^ 0x10) if raw is not None else 0x10)
+    bus = M.Bus([u], fault=fault)
+    st, r = bus.run(cls.write_raw(A.GearShort(7), mkbytes([v])))
+    tag = "%s/LockByte/%s" % (bname, fault_name)
+    if fault_name != "none":
+        ctx.prove(st == "exc" and isinstance(r, (MemoryWriteError, ResponseError)),
+                  "a failed write of the lock byte gave %s %r" % (st, r), key=tag + "/silent-failure")
+        return "raised" if st == "exc" else "silent"
+    ctx.prove(st == "ok" and E.eq(bank.image[2], v), "lock byte write on a healthy unit: %s %r" % (st, r),
+              key=tag + "/stored")
+    for l in (1, 3, 4, 9):
+        ctx.prove(bank.image[l] == ((l * 13 + 5) & 0xFF), "location %d changed" % l, key=tag + "/other-location")
+    return "stored"
+
+
 def h_write_value(ctx):
     """write(value): numbers, MASK/TMASK literals and strings go through value_to_raw."""
     import dali.memory.oem as oem
@@ -296,6 +337,11 @@ def h_write_value(ctx):
 
 def cases(tier):
     cs = [Case("write-value", h_write_value, {})]
+    for bname, hdr in MM.BANK_HEADERS.items():
+        if hdr[3] or hdr[4]:
+            for fault_name in ("none", "no", "echo", "framing"):
+                cs.append(Case("write-%s-LockByte-%s" % (bname, fault_name), h_write_lockbyte,
+                               {"bname": bname, "fault_name": fault_name}, width=128))
     vals = _values()
     for vi, (row, cls) in enumerate(vals):
         can, _ = _writable(row)
